@@ -11,3 +11,4 @@ for _i in range(1, 20):
             raise
 
 from . import generic  # noqa: E402,F401  (rules registered for every property)
+from . import packets  # noqa: E402,F401  (packet-frame witnesses shared by several properties)
